@@ -284,6 +284,45 @@ def gen_burst(rng, V, tbl="public", pool=None, n=None):
     return out
 
 
+# atoms with data of their own next to their element's: energy-dependent neutron tables
+SPECIAL_ISOTOPES = {62: [149], 63: [151], 64: [155, 157], 66: [164], 68: [167], 70: [168, 174], 71: [176],
+                    1: [1, 2, 3], 2: [3], 26: [56], 27: [59], 28: [58]}
+
+
+def gen_relatives_burst(rng, V, tbl="public"):
+    """One calculator with the SAME arguments on an atom and on its relatives (element, isotope,
+    ion, isotope ion): whatever a calculator leaves on an atom must not be found by the atoms that
+    delegate to it."""
+    Z = rng.choice(sorted(SPECIAL_ISOTOPES)) if rng.random() < 0.7 else rng.choice([z for z in V.Z if V.els[z]["isotopes"]])
+    e = V.els[Z]
+    sym = e["symbol"]
+    A = rng.choice(SPECIAL_ISOTOPES.get(Z) or e["isotopes"])
+    forms = [sym, "%s[%d]" % (sym, A)]
+    if e["ions"]:
+        q = rng.choice(e["ions"])
+        ion = "{%s%s}" % (abs(q) if abs(q) > 1 else "", "+" if q > 0 else "-")
+        forms += [sym + ion, "%s[%d]%s" % (sym, A, ion)]
+    rng.shuffle(forms)
+    which = rng.choice(["nsld", "nscat", "nsld", "composite", "xsld", "activation", "formula_methods", "d2o_sld"])
+    wl = rng.choice([0.5, 1.798, 4.75])
+    out = []
+    for f in forms[:rng.choice([2, 3, 4])]:
+        c = f + "2O3"
+        if which in ("nsld", "nscat"):
+            out.append(["calc", tbl, which, c, 5.0, wl])
+        elif which == "composite":
+            out.append(["calc", tbl, which, c, "H2O", wl])
+        elif which == "xsld":
+            out.append(["calc", tbl, which, c, 5.0, 8.04])
+        elif which == "activation":
+            out.append(["calc", tbl, which, c, 1.0, 1e8, 10.0, [0, 1, 24], "nist"])
+        elif which == "formula_methods":
+            out.append(["calc", tbl, which, c, 3.7])
+        else:
+            out.append(["calc", tbl, which, c + "@5", {"wavelength": wl}])
+    return out
+
+
 def c09_burst_strata():
     """Same compound, different secondary argument, once per calculator family."""
     gd = "Gd(NO3)3(H[1]2O)6@2.33"
@@ -303,6 +342,13 @@ def c09_burst_strata():
         [["calc", "public", "iadd", "C2H6O", "lipid"], ["calc", "public", "iadd", "C2H6O", "lipid"],
          ["calc", "public", "iadd", "C2H6O", "fasta"], ["calc", "public", "iadd", "C2H6O", "fasta"],
          ["calc", "public", "iadd", "C2H6O", "hill"], ["calc", "public", "iadd", "C2H6O", "copy"]],
+        # one calculator, the same arguments, an atom and then the atoms that delegate to it
+        [["calc", "public", "nsld", "Gd2O3", 5.0, 1.798], ["calc", "public", "nsld", "Gd[155]2O3", 5.0, 1.798],
+         ["calc", "public", "nsld", "Gd[157]{3+}2O3", 5.0, 1.798]],
+        [["calc", "public", "nscat", "Sm[149]2O3", 5.0, 0.5], ["calc", "public", "nscat", "Sm2O3", 5.0, 0.5],
+         ["calc", "public", "nscat", "Lu2O3", 5.0, 0.5], ["calc", "public", "nscat", "Lu[176]2O3", 5.0, 0.5]],
+        [["calc", "public", "xsld", "Fe2O3", 5.0, 8.04], ["calc", "public", "xsld", "Fe{3+}2O3", 5.0, 8.04],
+         ["calc", "public", "xsld", "Fe[56]{3+}2O3", 5.0, 8.04], ["calc", "public", "xsld", "Fe[56]2O3", 5.0, 8.04]],
         # an isotope added after the groups were first touched through different routes
         [["read", "public", [1, 0, 0], "neutron", "attr"], ["calc", "public", "new_isotope", 1, 8]],
         [["read", "public", [26, 0, 0], "neutron", "hasattr"], ["calc", "public", "new_isotope", 26, 99]],
